@@ -130,6 +130,23 @@ def run(tier):
     P.run()
     custom_coercers(R)
     bad_model = P.check("C14_model", C_MODEL, subset=P.cases + twins)
+    # a disagreement with the model of the documented table is a concrete failing input when it is about acceptance:
+    # the datum is rejected in strict mode, accepted with coercion, and no documented conversion (the model) accepts it
+    if bad_model and not R.violations:
+        strict_kind = {(id(t.u), repr(t.t), repr(t.data), repr(t.root), repr(sorted(dict(t.opts, coerce=True).items()))): t.kind
+                       for t in twins}
+        for c in bad_model[:40]:
+            if getattr(c, "tag", "") == "strict-twin" or not c.opts.get("coerce") or c.kind != "ok":
+                continue
+            key = (id(c.u), repr(c.t), repr(c.data), repr(c.root), repr(sorted(c.opts.items())))
+            if strict_kind.get(key) != "err":
+                continue
+            said = P.diagnose("C14_model", c)
+            if said.strip().strip('"').startswith("Err "):
+                R.violation(f"a datum rejected in strict mode is accepted with coerce=True as {c.payload!r} although no documented "
+                            f"conversion applies (the model of the documented table rejects it: {said[:160]})", c.to_json())
+                if len(R.violations) >= 3:
+                    break
     if bad_model and not R.violations:
         for c in bad_model[:5]:
             R.broken.append("correspondence model/implementation fails on " + repr(c.to_json())[:600]
